@@ -3,9 +3,13 @@
 package sm4_test
 
 import (
+	"bytes"
 	"crypto/cipher"
 	"fmt"
 	"os"
+	"runtime"
+	"time"
+	"verif/refs/gcmref"
 
 	"github.com/bilibili/smgo/sm4"
 	"verif/refs"
@@ -163,4 +167,121 @@ func gcmPart(base string) string {
 		return p
 	}
 	return base
+}
+
+// collectGarbage makes the collector run twice and waits until finalizers queued by those cycles have run: a sentinel
+// object with its own finalizer is dropped before each cycle, and the single finalizer goroutine has run everything queued
+// before the sentinel of the second cycle by the time that sentinel reports. (A missed finalizer only means a missed
+// opportunity to see a defect, never an alarm.)
+func collectGarbage() {
+	for cycle := 0; cycle < 2; cycle++ {
+		done := make(chan struct{})
+		func() {
+			s := new([64]byte)
+			runtime.SetFinalizer(s, func(*[64]byte) { close(done) })
+		}()
+		runtime.GC()
+		select {
+		case <-done:
+		case <-time.After(2 * time.Second):
+		}
+	}
+	runtime.GC()
+}
+
+type lifetimeCase struct {
+	Scenario string
+	NLen     int
+	Tag      int
+}
+
+// lifetimeCases: objects of the library are dropped and collected while objects made from them, or the objects they were
+// made from, stay in use. An AEAD keeps working after the Block it came from has been dropped, a Block and its other
+// AEADs keep working after one AEAD has been collected, and objects of different keys stay apart. prefix is "seal" (C06:
+// results compared with gcmref) or "open" (C07: authentic accepted, foreign and forged rejected).
+func lifetimeCases(r *vx.R, prefix string, mine func() bool) {
+	for _, par := range [][2]int{{12, 16}, {12, 12}, {16, 16}} {
+		nl, tag := par[0], par[1]
+		for _, sc := range []string{"sibling-aead-collected", "block-dropped", "other-key-collected", "aead-collected-block-used"} {
+			if !mine() {
+				continue
+			}
+			r.Eval(1)
+			cs := lifetimeCase{sc, nl, tag}
+			keyA, keyB := keyByName("lifeA"), keyByName("lifeB")
+			nonce, pt, aad := fillLen("nonce", nl), fillLen("pt", 45), fillLen("aad", 9)
+			wantA := gcmref.Seal(refCipher(keyA), nonce, pt, aad, tag)
+			wantB := gcmref.Seal(refCipher(keyB), nonce, pt, aad, tag)
+			blkWant := make([]byte, 16)
+			refBlock{refCipher(keyA)}.Encrypt(blkWant, pt[:16])
+			var problems []string
+			kind, msg := vx.TryFault(func() {
+				blk, err := sm4.NewCipher(keyA)
+				if err != nil {
+					panic(err)
+				}
+				mk := func(b cipher.Block) cipher.AEAD {
+					a, err := aeadFromBlock(b, nl, tag)
+					if err != nil {
+						return nil
+					}
+					return a
+				}
+				check := func(who string, a cipher.AEAD, want []byte, foreign []byte) {
+					if a == nil {
+						return
+					}
+					if got := a.Seal(nil, nonce, pt, aad); !bytes.Equal(got, want) {
+						problems = append(problems, who+": Seal differs from SP 800-38D")
+					}
+					if back, err := a.Open(nil, nonce, want, aad); err != nil || !bytes.Equal(back, pt) {
+						problems = append(problems, who+": Open rejects an authentic message")
+					}
+					if _, err := a.Open(nil, nonce, foreign, aad); err == nil {
+						problems = append(problems, who+": Open accepts a message sealed under another key")
+					}
+				}
+				switch sc {
+				case "sibling-aead-collected":
+					a1, a2 := mk(blk), mk(blk)
+					check("first AEAD", a1, wantA, wantB)
+					a1 = nil
+					collectGarbage()
+					check("second AEAD of the Block after the first was collected", a2, wantA, wantB)
+					check("a new AEAD of the same Block", mk(blk), wantA, wantB)
+				case "block-dropped":
+					a := mk(blk)
+					blk = nil
+					collectGarbage()
+					check("AEAD after its Block was dropped", a, wantA, wantB)
+				case "other-key-collected":
+					blkB, _ := sm4.NewCipher(keyB)
+					aA, aB := mk(blk), mk(blkB)
+					check("AEAD of key B", aB, wantB, wantA)
+					aB, blkB = nil, nil
+					collectGarbage()
+					check("AEAD of key A after the objects of key B were collected", aA, wantA, wantB)
+				case "aead-collected-block-used":
+					a := mk(blk)
+					check("AEAD", a, wantA, wantB)
+					a = nil
+					collectGarbage()
+					out := make([]byte, 16)
+					blk.Encrypt(out, pt[:16])
+					if !bytes.Equal(out, blkWant) {
+						problems = append(problems, "Block.Encrypt after an AEAD made from the Block was collected differs from GB/T 32907")
+					}
+				}
+				runtime.KeepAlive(blk)
+			})
+			if kind != "" {
+				r.Violation(prefix+":lifetime:panic:"+sc, msg, cs)
+			}
+			for _, p := range problems {
+				r.Violation(prefix+":lifetime:"+sc, fmt.Sprintf("%s (nonce %d, tag %d): %s", sc, nl, tag, p), cs)
+				break
+			}
+			r.Shape(fmt.Sprintf("lifetime:%s:%d:%d", sc, nl, tag))
+		}
+	}
 }
